@@ -317,6 +317,42 @@ Theorem C11_capacity_only_delays :
 Proof. exact C11_capacity_only_delays_pf. Qed.
 Print Assumptions C11_capacity_only_delays.
 
+(* ---- received notifications and the stream identifier ----
+   handle.rs hands a received notification to the user only if the sink it holds for the peer belongs to the
+   stream the notification arrived on. With a user who drains the handle after every event that is the gate
+   test `hopen` of Model.step: in every reachable state an open gate holds the sink of the newest Connection
+   task of the peer, the only one whose notifications the model forwards. *)
+Theorem C11_gate_is_newest_sink :
+  forall (c : cfg) (s : st) (p : peer),
+    reachable c s -> hopen s p = true -> hsink s p = lastt s p /\ lastt s p <> None.
+Proof. intros c s p R. apply (reachable_GInv c s R). Qed.
+Print Assumptions C11_gate_is_newest_sink.
+
+(* With a late-polling user the test is modelled as written (Model.sink_is): for every schedule the event
+   queue holds lifecycle events only, *)
+Theorem C11_lazy_queue_lifecycle_only :
+  forall (c : cfg) (cap : nat) (gs : list lop) (x : lst * list uev * list call),
+    In x (fst (lrun c cap linit gs)) -> Forall not_notif (lq (fst (fst x))).
+Proof. exact C11_lazy_queue_lifecycle_only_pf. Qed.
+Print Assumptions C11_lazy_queue_lifecycle_only.
+
+(* and one `handle.next()` returns NotificationReceived only when no lifecycle event is queued, for a peer
+   whose gate is open (the user has seen Opened and not yet Closed), and only for a notification that arrived
+   on the stream whose sink the handle holds: never a leftover of an earlier stream period of the peer. *)
+Theorem C11_lazy_notification_in_its_period :
+  forall (c : cfg) (cap : nat) (l l' : lst) (ev : list uev) (cl : list call) (p : peer),
+    Forall not_notif (lq l) -> lstep c cap l LPoll = Some (l', ev, cl) -> In (UNotif p) ev ->
+    lq l = [] /\ exists k, In (p, k) (lnf l) /\ hopen (ls l) p = true /\ hsink (ls l) p = Some k.
+Proof. exact lpoll_notif. Qed.
+Print Assumptions C11_lazy_notification_in_its_period.
+
+(* a leftover notification of period 0 is discarded in period 1 (it was handed out before the handle
+   compared stream identifiers: fix 810eaf6 of C12) *)
+Example C11_lazy_stale_notification_dropped :
+  flat_map (fun x => snd (fst x)) (fst (lrun cfg_w 5 linit w_stale_notif)) =
+  [UOpened 0 DOut; UClosed 0; UValidate 0; UOpened 0 DIn].
+Proof. vm_compute. reflexivity. Qed.
+
 Example C11_parked_handler_resumes :
   map (fun x => (parked 1 (fst (fst x)), snd (fst x), snd x)) (fst (lrun cfg_w0 1 linit w_parked)) =
   [(false, [], []); (false, [], []); (false, [], []); (false, [], []);
